@@ -181,8 +181,12 @@ impl File {
         self.0.read_line().map(|result| match result {
             Some(result) => {
                 if !result.is_empty() {
-                    let newline_bytes = if result.ends_with("\r\n") { 2 } else { 1 };
-                    result[..result.len() - newline_bytes].into()
+                    // The last line of a file doesn't necessarily end with a newline
+                    result
+                        .strip_suffix("\r\n")
+                        .or_else(|| result.strip_suffix('\n'))
+                        .unwrap_or(&result)
+                        .into()
                 } else {
                     KValue::Null
                 }
